@@ -50,6 +50,7 @@ def check(ctx):
     from .c14 import seed_guard            # unused-text flags handed down to the tracts survive a re-parse
     ctx.attempt(seed_guard)
     ctx.attempt(_pm_needs_pm)
+    ctx.attempt(rebuild_keeps_everything)
     ctx.attempt(dispatch_exhaustive)
     ctx.attempt(common.match_record_roles)
 
@@ -60,6 +61,25 @@ def _marker_blocks(ctx):
     if len(loops) != 1:
         raise AnalysisError("_parse_meaningful: marker loop not found")
     loop = loops[0]
+    # the walk starts at the first marker: an iterable that is a slice of the
+    # marker list (or a range that starts later) never looks at the text in front
+    it = loop.iter
+    inner = it.args[0] if isinstance(it, ast.Call) and dotted(it.func) == 'enumerate' and it.args else it
+    sliced = None
+    for x in ast.walk(inner):
+        if isinstance(x, ast.Subscript) and isinstance(x.slice, ast.Slice) and 'markers_list' in norm(x.value):
+            lo = x.slice.lower
+            if lo is not None and not (isinstance(lo, ast.Constant) and lo.value in (0, None)):
+                sliced = x
+    if isinstance(inner, ast.Call) and dotted(inner.func) == 'range' and len(inner.args) >= 2 \
+            and not (isinstance(inner.args[0], ast.Constant) and inner.args[0].value == 0):
+        sliced = inner
+    ctx.tri('markers_list' in norm(inner) and sliced is None, sliced is not None, 'SINK',
+            '_parse_meaningful walks every marker, from the first one',
+            detail_bad=f"the walk iterates `{norm(sliced)[:60] if sliced is not None else ''}`: the markers (and the text) in front of "
+                       f"its start are never cut into blocks, so a leading block reaches neither a tract nor the unused list "
+                       f"and no unused_desc flag is raised", key="SINK|_parse_meaningful|walk-start",
+            where=common.loc(fi, loop))
     cfg, rd = flow.analyse(fi.node)
     blocks = [n for n in ast.walk(loop) if isinstance(n, ast.Assign) and norm(n.targets[0]) == 'block'
               and isinstance(n.value, ast.Subscript)]
@@ -282,6 +302,58 @@ def _preprocess(ctx):
     else:
         ctx.check(ok, 'SINK', 'reduce_whitespace only rewrites whitespace', f"{len(pats)} substitutions",
                   f"reduce_whitespace substitutions {pats} touch non-whitespace", key="SINK|reduce_whitespace")
+
+
+def rebuild_keeps_everything(ctx, rule='SINK'):
+    """rebuild_sec_within pops every unused block; a block that is long enough
+    is absorbed by an accumulator (the description string, a list of leading
+    blocks, ...).  Every accumulator must reach the stored description, and
+    the condition under which the description is stored must look at every
+    accumulator - otherwise there is a path on which a popped block is in
+    neither the description nor (any longer) the unused list."""
+    fi = ctx.repo.func('plss_parse:rebuild_sec_within')
+    construct = 'rebuild_sec_within: every absorbed block reaches the stored description'
+    loops = [l for l in walk_local(fi.node) if isinstance(l, (ast.While, ast.For)) and 'unused_components' in norm(l)[:80]]
+    if not loops:
+        ctx.undecided(rule, construct, 'pop loop not recognised')
+        return
+    loop = loops[0]
+    popped = {t.id for a in ast.walk(loop) if isinstance(a, ast.Assign) and 'pop(' in norm(a.value)
+              for tt in a.targets for t in ast.walk(tt) if isinstance(t, ast.Name)}
+    carried = set(popped)
+    changed = True
+    while changed:                      # cleaned copies of the popped text
+        changed = False
+        for a in ast.walk(loop):
+            if isinstance(a, ast.Assign) and isinstance(a.targets[0], ast.Name) and a.targets[0].id not in carried \
+                    and isinstance(a.value, ast.Call) and any(isinstance(x, ast.Name) and x.id in carried for x in ast.walk(a.value)) \
+                    and not isinstance(a.value.func, ast.Attribute):
+                carried.add(a.targets[0].id)
+                changed = True
+    acc = set()
+    for a in ast.walk(loop):
+        if isinstance(a, ast.Assign) and isinstance(a.targets[0], ast.Name) and a.targets[0].id not in carried \
+                and any(isinstance(x, ast.Name) and x.id in carried for x in ast.walk(a.value)):
+            acc.add(a.targets[0].id)
+        if isinstance(a, ast.Call) and isinstance(a.func, ast.Attribute) and a.func.attr in ('append', 'extend', 'insert') \
+                and isinstance(a.func.value, ast.Name) and any(isinstance(x, ast.Name) and x.id in carried for ar in a.args for x in ast.walk(ar)):
+            acc.add(a.func.value.id)
+    stores = [a for a in walk_local(fi.node) if isinstance(a, ast.Assign) and isinstance(a.targets[0], ast.Subscript)
+              and isinstance(a.targets[0].slice, ast.Constant) and a.targets[0].slice.value == 'desc']
+    if not acc or len(stores) != 1:
+        ctx.undecided(rule, construct, f"accumulators {sorted(acc)} / {len(stores)} stores of ['desc']")
+        return
+    st = stores[0]
+    in_value = {x.id for x in ast.walk(st.value) if isinstance(x, ast.Name)}
+    in_guard = {x.id for t, _p in guards(st) for x in ast.walk(t) if isinstance(x, ast.Name)}
+    unstored = sorted(acc - in_value)
+    unguarded = sorted(acc - in_guard) if guards(st) else []
+    ctx.check(not unstored and not unguarded, rule, construct, f"accumulators {sorted(acc)}",
+              (f"blocks collected in `{unstored[0]}` never reach `{norm(st)[:50]}`" if unstored else
+               f"`{norm(st)[:60]}` runs only if `{norm(guards(st)[0][0])}`, which does not look at `{unguarded[0] if unguarded else ''}`: when "
+               f"only `{unguarded[0] if unguarded else ''}` received text the description is not stored, and the block - already "
+               f"popped from the unused list - is in no tract and raises no unused_desc flag"),
+              key=f"{rule}|rebuild_sec_within|accumulators|{','.join(unstored + unguarded)}", where=common.loc(fi, st))
 
 
 def _thresholds_and_tests(ctx):
